@@ -23,6 +23,8 @@ def main():
         prop, var = key.split("/")
         sid = "%s-%s" % (prop, var)
         src = os.path.join(cand, prop, var)
+        if not os.path.isdir(src):
+            continue    # a change of another round (other candidates directory)
         confirmed = d.get("demo_passes_without") and d.get("applies") and d.get("demo_fails_with") and d.get("suite_pass")
         if not confirmed:
             table.append((sid, prop, "not confirmed", d))
